@@ -251,6 +251,8 @@ pub struct ExprError(#[from] pub(crate) ExprErrorKind);
 pub(crate) enum ExprErrorKind {
     #[error("Unexpected value {1} for signal {0}")]
     UnexpectedValueForSignal(String, OutputValue),
+    #[error("random({0}) has no possible values")]
+    EmptyRandomRange(i64),
 }
 
 /// Could not construct static iterator
